@@ -365,12 +365,16 @@ class SymInt:
     def _bin(self, o, f):
         z = zint(o)
         if z is None:
+            if isinstance(o, float):  # e.g. aromatic bond count 1.5 + order: fork on the integer
+                return f(ENG.concretize(self.e), o)
             return NotImplemented
         return mk_int(f(self.e, z))
 
     def _rbin(self, o, f):
         z = zint(o)
         if z is None:
+            if isinstance(o, float):
+                return f(o, ENG.concretize(self.e))
             return NotImplemented
         return mk_int(f(z, self.e))
 
